@@ -21,9 +21,9 @@ ASSUMPTIONS = ['a kill happens between two events, an event being an output writ
                'outputs are compared modulo Created/LastChange/processingDateTime; logits by unpickled content; JPEGs byte-wise', '"complete page" = all its requested outputs exist when the run starts']
 N = {'quick': 0, 'thorough': 0}      # filled in by scenarios()
 CLASSES = ['single_crash', 'multi_crash', 'no_crash']
-REQUIRED = ['lmdb_scenarios', 'decoder_batch_runs', 'scenarios', 'crash_runs', 'resume_runs', 'crashes_inside_batch', 'final_trees_compared', 'page_events', 'nothing_to_do_runs', 'real_kills_compared']
+REQUIRED = ['scenarios_with_folders_from_the_configuration_file', 'scenarios_with_glob_characters_in_the_output_path', 'lmdb_scenarios', 'decoder_batch_runs', 'scenarios', 'crash_runs', 'resume_runs', 'crashes_inside_batch', 'final_trees_compared', 'page_events', 'nothing_to_do_runs', 'real_kills_compared']
 KNOWN_CROPS = 'line crops are the only requested output'
-IDS = ('a', 'b.v2', 'c.jpg_x', 'd.xml', 'e.logits.1', 'f', 'f.b')     # 'f' / 'f.b': file-name order (f.b.png < f.png) and id order (f < f.b) disagree
+IDS = ('a', 'b.v2', 'c.jpg_x', 'd.xml', 'e.logits.1', 'f', 'f.b', '.cover')     # '.cover': a hidden-file name; 'b.v2' and 'f': their input PAGE XML names another image file; 'f' / 'f.b': file-name order (f.b.png < f.png) and id order (f < f.b) disagree
 ALL = ['xml', 'render', 'logits', 'alto', 'line']
 SHARDS = {'quick': 12, 'thorough': 16}
 TIMEOUT = {'quick': 900, 'thorough': 10800}
@@ -106,7 +106,7 @@ def setup(ctx):
     from pero_ocr.core.layout import PageLayout
     ctx.PF = pipeline.load_parse_folder(ctx.repo)
     ctx.root = os.path.join(ctx.tmpdir, 'batch')
-    pipeline.make_batch(ctx.root, IDS, seed=17, n_lines=2)
+    pipeline.make_batch(ctx.root, IDS, seed=17, n_lines=2, foreign_image_names=('b.v2', 'f'))
     ctx.scen = scenarios(ctx.tier, ctx.seed)
     ctx.events, ctx.proc = [], []
     ctx.state = {'crash_at': None, 'n': 0, 'real': False}
@@ -163,11 +163,11 @@ def install_recorders(ctx, PageLayout, cv2, real_exit=False):
     ctx.PF.Computator.__call__ = cc
 
 
-def run(ctx, out, kinds, crash_at=None):
+def run(ctx, out, kinds, crash_at=None, via_config=False):
     ctx.state['crash_at'], ctx.state['n'] = crash_at, 0
     del ctx.events[:]
     del ctx.proc[:]
-    res = pipeline.run_main(ctx.PF, pipeline.argv_for(ctx.root, out, kinds), crash_exc=Kill)
+    res = pipeline.run_main(ctx.PF, pipeline.argv_for(ctx.root, out, kinds, via_config=via_config), crash_exc=Kill)
     return res, len(ctx.events), list(ctx.proc)
 
 
@@ -250,12 +250,18 @@ def check(case, mon, ctx):
         if pipeline.snapshot(ref_out) != ref:
             mon.violation('outputs-equal-uninterrupted-run', dict(w, note='a run with nothing to do (--process-count 2) changed the outputs'))
         return
-    out = os.path.join(ctx.tmpdir, 'o')
+    # a quarter of the scenarios give the folders in the configuration file; every other scenario writes into a folder whose name contains glob metacharacters
+    via = (len(kinds) + sum(seq)) % 4 == 0
+    out = os.path.join(ctx.tmpdir, 'o' if (len(kinds) + sum(seq)) % 2 else 'o [vol 1]')
     shutil.rmtree(out, ignore_errors=True)
+    if via:
+        mon.count('scenarios_with_folders_from_the_configuration_file')
+    if out.endswith(']'):
+        mon.count('scenarios_with_glob_characters_in_the_output_path')
     inside = False
     for p in seq:
         complete, before = complete_pages(out)
-        res, n, pr = run(ctx, out, kinds, crash_at=p)
+        res, n, pr = run(ctx, out, kinds, crash_at=p, via_config=via)
         mon.count('crash_runs')
         mon.count('page_events', len(pr))
         if res == 'crash' and 0 < len(before) + n < len(ref):
@@ -268,7 +274,7 @@ def check(case, mon, ctx):
         mon.count('crashes_inside_batch')
         mon.mark_nontrivial()
     complete, before = complete_pages(out)
-    res, n, pr = run(ctx, out, kinds)
+    res, n, pr = run(ctx, out, kinds, via_config=via)
     mon.count('resume_runs')
     mon.count('page_events', len(pr))
     if set(pr) & complete:
